@@ -11,8 +11,13 @@ C01 — Results do not depend on the container format; inputs are never modified
     `SkNet/Generated/Effects.lean`) and `Fn.ok` is decided for each of them (`Generated/EffectsCheck.lean`).
 -/
 import SkNet.Lemmas.Container
+import SkNet.Lemmas.ContainerDType
+import SkNet.Lemmas.ContainerConsumers
 import SkNet.Lemmas.Ownership
 import SkNet.Lemmas.WL
+import SkNet.Model.Path
+import SkNet.Model.Topology
+import SkNet.Model.Heat
 
 namespace SkNet.C01
 open SkNet SkNet.Fmt SkNet.Own
@@ -129,11 +134,237 @@ example :
     canon 3 (toCsrRows (.csc 2 [[(0, 2)], [(1, 5)], [(0, 2)]])) = [[(0, 2), (2, 2)], [(1, 5)]] := by
   decide +kernel
 
+/-! ## the conversions in the arithmetic of the dtype -/
+
+/-- every stored value is a value of the dtype -/
+def memD (dt : DType) (c : Container) : Prop := ∀ i j, ∀ v ∈ cell c i j, dt.mem v
+
+/-- **denoteD_checkFormatD**. For a container of dtype `dt` (bool: `+` is or; intN / uintN: `+` wraps around; float:
+exact, see `Model/Container.lean`) whose stored values are values of the dtype, the CSR matrix `check_format` builds
+denotes — duplicates added up *in the dtype* — the same matrix as the input. The only arithmetic a conversion performs
+is the summing of COO duplicates; no overflow hypothesis is needed because the model wraps like numpy does. -/
+theorem denoteD_checkFormatD (dt : DType) (hv : dt.valid) (c : Container) (_hm : memD dt c) (i j : Nat)
+    (hi : i < c.nRow) (hj : j < c.nCol) :
+    denoteD dt (checkFormatD dt c) i j = denoteD dt c i j := by
+  cases c with
+  | csr nCol rows => rfl
+  | lil nCol rows => rfl
+  | csc nRow cols =>
+    simp only [checkFormatD, toCsrRowsD, toCsrRows, denoteD, cell, Container.nRow, Container.nCol] at *
+    rw [tab_getD]
+    simp only [hi, if_true]
+    rw [cell_flatMap_cols cols i cols.length j]
+    simp [hj]
+  | coo nRow nCol es =>
+    simp only [checkFormatD, toCsrRowsD, denoteD, cell, Container.nRow, Container.nCol] at *
+    rw [tab_getD]
+    simp only [hi, if_true]
+    have h := cell_range_filterMap
+      (fun j => !((es.filter fun e => e.1 == i && e.2.1 == j).map (·.2.2)).isEmpty)
+      (fun j => sumD dt ((es.filter fun e => e.1 == i && e.2.1 == j).map (·.2.2))) nCol j
+    have hcongr : ((List.range nCol).filterMap fun j =>
+          let vs := (es.filter fun e => e.1 == i && e.2.1 == j).map (·.2.2)
+          if vs.isEmpty then none else some (j, sumD dt vs))
+        = (List.range nCol).filterMap fun j =>
+          if (!((es.filter fun e => e.1 == i && e.2.1 == j).map (·.2.2)).isEmpty) then
+            some (j, sumD dt ((es.filter fun e => e.1 == i && e.2.1 == j).map (·.2.2))) else none := by
+      apply filterMap_congr'
+      intro k _
+      cases hk : ((es.filter fun e => e.1 == i && e.2.1 == k).map (·.2.2)).isEmpty <;> simp [hk]
+    rw [hcongr, h]
+    cases hk : ((es.filter fun e => e.1 == i && e.2.1 == j).map (·.2.2)).isEmpty
+    · simp only [hj, hk, Bool.not_false, and_self, if_true]
+      exact sumD_single dt _ (sumD_mem dt hv _)
+    · simp only [hk, Bool.not_true, Bool.false_eq_true, and_false, if_false]
+      have : ((es.filter fun e => e.1 == i && e.2.1 == j).map (·.2.2)) = [] := by simpa using hk
+      rw [this]
+  | dense nCol rows =>
+    simp only [checkFormatD, toCsrRowsD, toCsrRows, denoteD, cell, Container.nRow, Container.nCol] at *
+    have hrow : (rows.map fun r => (List.range nCol).filterMap fun j =>
+        if r.getD j 0 != 0 then some (j, r.getD j 0) else none).getD i []
+        = (List.range nCol).filterMap fun j => if (rows.getD i []).getD j 0 != 0 then some (j, (rows.getD i []).getD j 0) else none := by
+      rw [List.getD_eq_getElem?_getD, List.getD_eq_getElem?_getD, List.getElem?_map,
+        List.getElem?_eq_getElem hi]
+      rfl
+    rw [hrow, cell_range_filterMap (fun j => (rows.getD i []).getD j 0 != 0) (fun j => (rows.getD i []).getD j 0) nCol j]
+    simp [hj]
+
+/-- the `float` instance of the dtype-aware model is the model without dtype -/
+theorem denoteD_float (c : Container) (i j : Nat) : denoteD .float c i j = denote c i j := by
+  cases c with
+  | csr nCol rows => rfl
+  | lil nCol rows => rfl
+  | csc nRow cols => rfl
+  | coo nRow nCol es => rfl
+  | dense nCol rows =>
+    simp only [denoteD, denote, cell]
+    split
+    · simp [sumD, DType.add, Rat.add_zero]
+    · rename_i h
+      have : (rows.getD i []).getD j 0 = 0 := by simpa using h
+      rw [this]; rfl
+
+/-- **the overflow hypothesis, explicit**: in an integer dtype the matrix a container denotes is the exact one as
+long as, at every position, the exact sums of the stored duplicates (added one after the other, as scipy does) stay
+inside the range of the dtype. Without the hypothesis the statement is false: see the `int8` example below. -/
+theorem denoteD_int_exact (lo hi : Int) (c : Container) (i j : Nat) (hint : ∀ x ∈ cell c i j, x.den = 1)
+    (hfit : ∀ k, k ≤ (cell c i j).length →
+      (sumR ((cell c i j).drop k)).den = 1 ∧ lo ≤ (sumR ((cell c i j).drop k)).num ∧ (sumR ((cell c i j).drop k)).num ≤ hi) :
+    denoteD (.int lo hi) c i j = denoteD .float c i j := by
+  unfold denoteD
+  rw [sumD_int_exact lo hi _ hint hfit]; rfl
+
+/-- **unsorted indices, any dtype**: permuting the stored entries of a row does not change the matrix (the order in
+which wrapped or boolean duplicates are added is immaterial). -/
+theorem unsorted_sameD (dt : DType) (nCol : Nat) (rows rows' : Rows)
+    (hp : ∀ i, i < rows.length → (rows.getD i []).Perm (rows'.getD i [])) (i j : Nat) (hi : i < rows.length) :
+    denoteD dt (.csr nCol rows) i j = denoteD dt (.csr nCol rows') i j := by
+  simp only [denoteD, cell]
+  exact sumD_perm dt (((hp i hi).filter _).map _)
+
+/-- what scipy does and exact arithmetic does not: a boolean COO matrix storing an entry twice holds `True` (not 2);
+an int8 COO matrix storing 100 twice holds -56 (not 200); in both cases `check_format` keeps that denotation, and
+200 is what the dtype-free model would say. -/
+example :
+    denoteD .bool (.coo 2 2 [(0, 1, 1), (0, 1, 1)]) 0 1 = 1 ∧
+    toCsrRowsD .bool (.coo 2 2 [(0, 1, 1), (0, 1, 1)]) = [[(1, 1)], []] ∧
+    denoteD int8 (.coo 2 2 [(0, 1, 100), (0, 1, 100)]) 0 1 = -56 ∧
+    toCsrRowsD int8 (.coo 2 2 [(0, 1, 100), (0, 1, 100)]) = [[(1, -56)], []] ∧
+    denoteD uint8 (.coo 2 2 [(0, 1, 200), (0, 1, 100)]) 0 1 = 44 ∧
+    denote (.coo 2 2 [(0, 1, 100), (0, 1, 100)]) 0 1 = 200 := by
+  decide +kernel
+
+/-- the hypotheses of `denoteD_checkFormatD` and `denoteD_int_exact` are met by a concrete int8 COO matrix with
+duplicates that do not overflow -/
+example : (int8).valid ∧ denoteD int8 (checkFormatD int8 (.coo 1 2 [(0, 1, 50), (0, 1, 60)])) 0 1 = 110 := by
+  refine ⟨⟨by decide, by decide⟩, by decide +kernel⟩
+
+/-! ## consumers of the stored arrays: `respects_denote` -/
+
+/-- DESIGN §5 (C01): a consumer `f` of the stored CSR rows *respects the denotation* when two well-formed stored row
+lists of the same shape that denote the same matrix give the same output. -/
+def RespectsDenote {β : Type} (f : Nat → Rows → β) : Prop :=
+  ∀ (nCol : Nat) (rows rows' : Rows), rowsWF nCol rows = true → rowsWF nCol rows' = true → rows.length = rows'.length →
+    (∀ i j, i < rows.length → j < nCol → valOf rows i j = valOf rows' i j) → f nCol rows = f nCol rows'
+
+/-- **respects_denote, value consumers**. Every model that takes the matrix through `valOf` (the sum of the stored
+entries of a position) respects the denotation — whatever it computes. -/
+theorem respects_denote_val {β : Type} (F : Nat → (Nat → Nat → Rat) → β) :
+    RespectsDenote fun nCol rows => F nCol (valOf rows) := by
+  intro nCol rows rows' hw hw' hlen h
+  show F nCol (valOf rows) = F nCol (valOf rows')
+  rw [valOf_ext nCol rows rows' hw hw' hlen h]
+
+/-- C11: `count_triangles` (sequential or any parallel schedule), `get_clustering_coefficient` and
+`get_core_decomposition` (models of `Model/Topology.lean`) on a square matrix given by its stored rows. -/
+theorem respects_denote_countTriangles (sched : Option Topology.Schedule) :
+    RespectsDenote fun nCol rows => Topology.countTriangles rows.length nCol (valOf rows) sched := by
+  intro nCol rows rows' hw hw' hlen h
+  show Topology.countTriangles rows.length nCol (valOf rows) sched = Topology.countTriangles rows'.length nCol (valOf rows') sched
+  rw [valOf_ext nCol rows rows' hw hw' hlen h, hlen]
+
+theorem respects_denote_clusteringCoefficient (sched : Option Topology.Schedule) :
+    RespectsDenote fun nCol rows => Topology.clusteringCoefficient rows.length nCol (valOf rows) sched := by
+  intro nCol rows rows' hw hw' hlen h
+  show Topology.clusteringCoefficient rows.length nCol (valOf rows) sched = Topology.clusteringCoefficient rows'.length nCol (valOf rows') sched
+  rw [valOf_ext nCol rows rows' hw hw' hlen h, hlen]
+
+theorem respects_denote_coreDecomposition :
+    RespectsDenote fun nCol rows => Topology.getCoreDecomposition rows.length nCol (valOf rows) := by
+  intro nCol rows rows' hw hw' hlen h
+  show Topology.getCoreDecomposition rows.length nCol (valOf rows) = Topology.getCoreDecomposition rows'.length nCol (valOf rows')
+  rw [valOf_ext nCol rows rows' hw hw' hlen h, hlen]
+
+/-- number of stored entries (`nnz`): the one thing `check_format` reads that is not the denotation -/
+def storedNnz (rows : Rows) : Nat := (rows.map List.length).foldl (· + ·) 0
+
+/-- C14: `Diffusion.fit` / `Dirichlet.fit` (model of `Model/Heat.lean`: get_adjacency_values, normalisation, the
+iteration) read the values through `valOf` and, in `check_format`, whether anything is stored at all. -/
+def heatConsumer (algo : Heat.Algo) (a : Heat.Args) (nIter : Int) (α : Rat) (nCol : Nat) (rows : Rows) :=
+  Heat.fit algo rows.length nCol (storedNnz rows) (valOf rows) a nIter α
+
+/-- `respects_denote` for the heat models as DESIGN states it; false — `respects_denote_heat_full_false`. -/
+def respects_denote_heat_full : Prop :=
+  ∀ algo a nIter α, RespectsDenote (heatConsumer algo a nIter α)
+
+/-- what holds: same denotation and *both or neither* store an entry ⇒ same fit. -/
+theorem respects_denote_heat_partial (algo : Heat.Algo) (a : Heat.Args) (nIter : Int) (α : Rat)
+    (nCol : Nat) (rows rows' : Rows) (hw : rowsWF nCol rows = true) (hw' : rowsWF nCol rows' = true)
+    (hlen : rows.length = rows'.length)
+    (h : ∀ i j, i < rows.length → j < nCol → valOf rows i j = valOf rows' i j)
+    (hnnz : storedNnz rows = 0 ↔ storedNnz rows' = 0) :
+    heatConsumer algo a nIter α nCol rows = heatConsumer algo a nIter α nCol rows' := by
+  unfold heatConsumer Heat.fit Heat.getAdjacencyValues
+  rw [valOf_ext nCol rows rows' hw hw' hlen h, hlen]
+  by_cases h0 : storedNnz rows = 0
+  · have h0' := hnnz.1 h0
+    simp [h0, h0']
+  · have h0' : ¬ storedNnz rows' = 0 := fun e => h0 (hnnz.2 e)
+    simp [h0, h0']
+
+/-- the stored structure the heat models depend on: a matrix holding one explicit zero is accepted (and diffused),
+the empty matrix of the same denotation is refused by `check_format` ('The input matrix is empty'). -/
+theorem respects_denote_heat_full_false : ¬ respects_denote_heat_full := by
+  intro h
+  have := h .dirichlet {} 1 0 1 [[(0, 0)]] [[]] (by decide) (by decide) rfl
+    (by intro i j hi hj
+        have hi0 : i = 0 := by simp at hi; omega
+        have hj0 : j = 0 := by omega
+        subst hi0; subst hj0; decide +kernel)
+  have e1 : heatConsumer .dirichlet {} 1 0 1 [[(0, 0)]] = .ok ⟨[1], none, none⟩ := by decide +kernel
+  have e2 : heatConsumer .dirichlet {} 1 0 1 [[]] = .error .valueError := by rfl
+  rw [e1, e2] at this
+  cases this
+
+/-- C10: the path functions read `indices` and `data`: an edge is a stored entry with a non-zero value. -/
+def distancesConsumer (a : Path.DistArgs) (nCol : Nat) (rows : Rows) :=
+  Path.getDistances rows.length nCol (edgeOf rows) a
+
+/-- `respects_denote` for `get_distances` as DESIGN states it; false — `respects_denote_distances_full_false`. -/
+def respects_denote_distances_full : Prop := ∀ a, RespectsDenote (distancesConsumer a)
+
+/-- what holds: on matrices with non-negative stored values (graph weights; duplicates and any stored order allowed)
+the hop distances are a function of the denotation. -/
+theorem respects_denote_distances_partial (a : Path.DistArgs) (nCol : Nat) (rows rows' : Rows)
+    (hw : rowsWF nCol rows = true) (hw' : rowsWF nCol rows' = true) (hn : rowsNonneg rows) (hn' : rowsNonneg rows')
+    (hlen : rows.length = rows'.length)
+    (h : ∀ i j, i < rows.length → j < nCol → valOf rows i j = valOf rows' i j) :
+    distancesConsumer a nCol rows = distancesConsumer a nCol rows' := by
+  unfold distancesConsumer
+  rw [edgeOf_ext nCol rows rows' hw hw' hn hn' hlen h, hlen]
+
+/-- duplicates that cancel (2 and -2 stored at the same position) are an edge for `get_distances` although the
+matrix is zero there: node 1 is at distance 1 from node 0 on one representation and unreachable on the other. -/
+theorem respects_denote_distances_full_false : ¬ respects_denote_distances_full := by
+  intro h
+  have := h { source := some [0] } 2 [[(1, 2), (1, -2)], []] [[], []] (by decide) (by decide) rfl
+    (by intro i j hi hj
+        have : i = 0 ∨ i = 1 := by simp at hi; omega
+        have : j = 0 ∨ j = 1 := by omega
+        rcases ‹i = 0 ∨ i = 1› with rfl | rfl <;> rcases ‹j = 0 ∨ j = 1› with rfl | rfl <;> decide +kernel)
+  have e1 : distancesConsumer { source := some [0] } 2 [[(1, 2), (1, -2)], []] = .ok (some (.single [0, 1])) := by rfl
+  have e2 : distancesConsumer { source := some [0] } 2 [[], []] = .ok (some (.single [0, -1])) := by rfl
+  rw [e1, e2] at this
+  injection this with h1
+  injection h1 with h2
+  injection h2 with h3
+  simp at h3
+
+example : rowsNonneg [[(1, 2), (1, 1)], [(0, 3)]] ∧ rowsWF 2 [[(1, 2), (1, 1)], [(0, 3)]] = true := by
+  refine ⟨?_, by decide⟩
+  intro r hr p hp
+  simp at hr
+  rcases hr with rfl | rfl <;> simp at hp <;> rcases hp with rfl | rfl <;> decide
+
 /-! ## a kernel that walks `indptr / indices` directly: Weisfeiler-Lehman on unsorted indices -/
 
-/-- **respects_denote (WL)**. The Weisfeiler-Lehman kernel reads the stored column indices of each row in
-storage order; with a hash that identifies permutations (exact arithmetic) the colours do not depend on
-that order: a CSR matrix with unsorted indices gives the same colours as the sorted one. -/
+/-- **respects_denote (WL), idealised hash**. The Weisfeiler-Lehman kernel reads the stored column indices of each
+row in storage order; *with a hash that identifies permutations* (`WL.ExactOps`: `hashOf l = hashOf l' ↔ l.Perm l'`,
+`apart a b ↔ a ≠ b`) the colours do not depend on that order. The compiled kernel does NOT satisfy `ExactOps`: it
+adds float64 powers in storage order and separates hashes by `abs(h - h') > 1e-10` (`WL.floatOps`), so this theorem
+is about the exact model only; for the float kernel the statement is `wl_unsorted_float_full` below (not proved;
+property C02 records a hash collision of the float kernel as a finding, and the harness compares the real kernel on
+shuffled indices on every run). -/
 theorem wl_unsorted_same {H : Type} {ops : WL.HashOps H} (hx : WL.ExactOps ops) (adj adj' : List (List Nat))
     (hlen : adj.length = adj'.length)
     (hperm : ∀ i, i < adj.length → (adj.getD i []).Perm (adj'.getD i [])) (maxIter : Option Nat) :
@@ -167,6 +398,48 @@ theorem wl_unsorted_same {H : Type} {ops : WL.HashOps H} (hx : WL.ExactOps ops) 
   rw [hlen]
   exact congrArg Prod.fst (hcol _ _ _)
 
+/-- the float statement (not proved): the colours computed with the float64 hash and the 1e-10 separation of the
+compiled kernel do not depend on the stored order. Storage order changes the float sum by round-off, so this needs a
+margin hypothesis on the hashes that the kernel does not check. -/
+def wl_unsorted_float_full : Prop :=
+  ∀ (powers : Array Float) (adj adj' : List (List Nat)), adj.length = adj'.length →
+    (∀ i, i < adj.length → (adj.getD i []).Perm (adj'.getD i [])) → ∀ maxIter,
+    WL.colorWL (WL.floatOps powers) adj maxIter = WL.colorWL (WL.floatOps powers) adj' maxIter
+
+/-- Non-vacuity of `wl_unsorted_same`: `WL.exactOps` is exact (`C02.exactOps_exact`); on the path 0-1-2 stored with
+the middle row in either order the colours agree and are not constant. -/
+example : WL.colorWL WL.exactOps [[1], [0, 2], [1]] none = WL.colorWL WL.exactOps [[1], [2, 0], [1]] none ∧
+    WL.colorWL WL.exactOps [[1], [0, 2], [1]] none = [0, 1, 0] := by
+  decide +kernel
+
+/-- C02: the kernel's adjacency lists are the stored column indices. -/
+def wlConsumer {H : Type} (ops : WL.HashOps H) (maxIter : Option Nat) (_nCol : Nat) (rows : Rows) :=
+  WL.colorWL ops (adjOf rows) maxIter
+
+/-- what holds (exact hash): two *simple* stored forms of a matrix — no column twice in a row, no stored zero, any
+stored order — give the same colours. -/
+theorem respects_denote_wl_partial {H : Type} {ops : WL.HashOps H} (hx : WL.ExactOps ops) (maxIter : Option Nat)
+    (nCol : Nat) (rows rows' : Rows) (hs : rowsSimple rows) (hs' : rowsSimple rows') (hlen : rows.length = rows'.length)
+    (h : ∀ i j, valOf rows i j = valOf rows' i j) :
+    wlConsumer ops maxIter nCol rows = wlConsumer ops maxIter nCol rows' := by
+  unfold wlConsumer
+  apply wl_unsorted_same hx (adjOf rows) (adjOf rows') (by simp [adjOf, hlen])
+  intro i hi
+  exact adjOf_perm rows rows' hs hs' hlen h i (by simpa [adjOf] using hi)
+
+/-- `respects_denote` for the WL colouring as DESIGN states it (exact hash); false: a stored zero is a neighbour. -/
+def respects_denote_wl_full : Prop := ∀ maxIter, RespectsDenote (wlConsumer WL.exactOps maxIter)
+
+theorem respects_denote_wl_full_false : ¬ respects_denote_wl_full := by
+  intro h
+  have := h none 3 [[(1, 1)], [(0, 1), (2, 0)], []] [[(1, 1)], [(0, 1)], []] (by decide) (by decide) rfl
+    (by intro i j hi hj
+        have hi' : i = 0 ∨ i = 1 ∨ i = 2 := by simp at hi; omega
+        have hj' : j = 0 ∨ j = 1 ∨ j = 2 := by omega
+        rcases hi' with rfl | rfl | rfl <;> rcases hj' with rfl | rfl | rfl <;> decide +kernel)
+  revert this
+  decide +kernel
+
 /-! ## ownership -/
 
 /-- **ownership_sound**. If an ownership program passes the check with some may-alias certificate, then in
@@ -185,6 +458,24 @@ theorem safe_sound (prog : Prog) (declared : List Nat) (np : Nat) (h : safe prog
     (trace : List (Stmt × Nat)) (htr : ∀ e ∈ trace, e.1 ∈ prog) (p : Nat) (hp : p < np) (hnd : p ∉ declared) :
     (run (init np) trace).version.getD p 0 = 0 :=
   ownership_sound prog (analyse prog) declared np h trace htr p hp hnd
+
+/-- **fn_ok_sound**: what a discharged generated obligation means. `Fn.ok f` checks the certificate the translator
+proposes for the program of `f` (`f.cert`, untrusted) and that a public entry point declares no write; then no
+execution of the program — any order, any number of times, any aliasing choice — writes a caller's argument that `f`
+does not declare, i.e. *any* argument when `f` is public (`sort_indices` excepted). -/
+theorem fn_ok_sound (f : Fn) (h : f.ok = true) (np : Nat) (trace : List (Stmt × Nat)) (htr : ∀ e ∈ trace, e.1 ∈ f.prog)
+    (p : Nat) (hp : p < np) (hnd : p ∉ f.writes) :
+    (run (init np) trace).version.getD p 0 = 0 := by
+  unfold Fn.ok at h
+  simp only [Bool.and_eq_true] at h
+  exact ownership_sound f.prog f.cert f.writes np h.1.1 trace htr p hp hnd
+
+theorem fn_ok_public (f : Fn) (h : f.ok = true) (hpub : f.isPublic = true) : f.writes = [] := by
+  unfold Fn.ok at h
+  simp only [Bool.and_eq_true, Bool.or_eq_true, Bool.not_eq_true'] at h
+  rcases h.2 with h2 | h2
+  · rw [hpub] at h2; cases h2
+  · simpa using h2
 
 /-- Non-vacuity, and the check is not trivially true: copying before writing is safe, writing through a
 view of the argument is not. -/
